@@ -318,3 +318,8 @@ def run(ctx):
     with ctx.rule("C11.R8", "T7", "node and lane names written into an envelope are escaped character by character (nothing but the escapes changes)", floor=1) as r:
         from rules.common import escape_text_rule
         escape_text_rule(r, ctx)
+
+    # node and lane names are read back by the Recon tokenizer's unescape: it must undo exactly what escape_text did (C09.R2)
+    from rules import C09 as _C09
+    ctx.borrow(_C09, {"C09.R2": ("C11.R9", "the reader unescapes node and lane names exactly as the writer escaped them (escape tables inverse, \\uXXXX of four digits; C09.R2)")})
+
